@@ -14,6 +14,7 @@ import (
 	"strconv"
 	"strings"
 	"sync"
+	"syscall"
 
 	"verifharness/hapcfg"
 )
@@ -27,6 +28,7 @@ const (
 	FaultNotOK   = "notok"   // command not applied, unexpected text returned
 	FaultFail    = "fail"    // reload only: new worker fails to start (show proc reports failed: 1)
 	FaultNoRel   = "norel"   // reload only: master socket closes without reloading
+	FaultReset   = "reset"   // reload only: the connection is closed with the command still unread (the client sees ECONNRESET), nothing reloads
 )
 
 // Server is the runtime state of one server slot.
@@ -59,6 +61,7 @@ type Sim struct {
 	masterL    net.Listener
 	wg         sync.WaitGroup
 	closed     bool
+	conns      map[net.Conn]struct{} // open connections, closed by Close()
 
 	state       *State
 	pendingCert map[string]string
@@ -84,6 +87,7 @@ func New(cfgDir, runDir string) (*Sim, error) {
 		masterPath:  filepath.Join(runDir, "master.sock"),
 		state:       &State{Backends: map[string]map[string]*Server{}, Certs: map[string]string{}},
 		pendingCert: map[string]string{},
+		conns:       map[net.Conn]struct{}{},
 	}
 	var err error
 	if s.adminL, err = net.Listen("unix", s.adminPath); err != nil {
@@ -109,6 +113,10 @@ func (s *Sim) MasterSocket() string { return s.masterPath }
 func (s *Sim) Close() {
 	s.mu.Lock()
 	s.closed = true
+	for c := range s.conns {
+		// a client may keep a persistent connection open: the handler must not wait for it
+		c.Close()
+	}
 	s.mu.Unlock()
 	s.adminL.Close()
 	s.masterL.Close()
@@ -167,10 +175,23 @@ func (s *Sim) serve(l net.Listener, h func(net.Conn)) {
 		if err != nil {
 			return
 		}
+		s.mu.Lock()
+		if s.closed {
+			s.mu.Unlock()
+			c.Close()
+			return
+		}
+		s.conns[c] = struct{}{}
+		s.mu.Unlock()
 		s.wg.Add(1)
 		go func() {
 			defer s.wg.Done()
-			defer c.Close()
+			defer func() {
+				s.mu.Lock()
+				delete(s.conns, c)
+				s.mu.Unlock()
+				c.Close()
+			}()
 			h(c)
 		}()
 	}
@@ -224,7 +245,45 @@ func normPEM(s string) string {
 	return strings.TrimSpace(s)
 }
 
+// peekCommand waits for the first bytes of the connection and returns them without consuming them.
+func peekCommand(c net.Conn) string {
+	uc, ok := c.(*net.UnixConn)
+	if !ok {
+		return ""
+	}
+	raw, err := uc.SyscallConn()
+	if err != nil {
+		return ""
+	}
+	var peek string
+	_ = raw.Read(func(fd uintptr) bool {
+		buf := make([]byte, 16)
+		n, _, err := syscall.Recvfrom(int(fd), buf, syscall.MSG_PEEK)
+		if err == syscall.EAGAIN || err == syscall.EWOULDBLOCK {
+			return false // wait until readable
+		}
+		if n > 0 {
+			peek = string(buf[:n])
+		}
+		return true
+	})
+	return peek
+}
+
 func (s *Sim) handleMaster(c net.Conn) {
+	ordTaken := false
+	if strings.HasPrefix(peekCommand(c), "reload") {
+		s.mu.Lock()
+		s.reloadOrd++
+		ordTaken = true
+		if s.reloadFaults[s.reloadOrd] == FaultReset {
+			// close with the command unread: the peer gets ECONNRESET instead of an orderly end of stream
+			s.FaultsHit++
+			s.mu.Unlock()
+			return
+		}
+		s.mu.Unlock()
+	}
 	r := bufio.NewReader(c)
 	for {
 		line, err := r.ReadString('\n')
@@ -256,7 +315,10 @@ func (s *Sim) handleMaster(c net.Conn) {
 			return
 		case "reload":
 			s.mu.Lock()
-			s.reloadOrd++
+			if !ordTaken {
+				s.reloadOrd++
+			}
+			ordTaken = false
 			fault := s.reloadFaults[s.reloadOrd]
 			if fault != FaultNone {
 				s.FaultsHit++
@@ -290,6 +352,12 @@ func (s *Sim) handleMaster(c net.Conn) {
 func (s *Sim) handleAdmin(c net.Conn) {
 	r := bufio.NewReader(c)
 	interactive := false
+	// A connection to the admin socket belongs to the worker process that accepted it. A reload
+	// starts a new worker from the files; a connection that was open before keeps talking to the
+	// old, leaving worker: its commands are answered but never reach the new one.
+	s.mu.Lock()
+	worker, pending := s.state, s.pendingCert
+	s.mu.Unlock()
 	for {
 		line, err := r.ReadString('\n')
 		if err != nil {
@@ -318,7 +386,7 @@ func (s *Sim) handleAdmin(c net.Conn) {
 				payload += pl
 			}
 		}
-		resp, closeConn := s.exec(cmd, payload)
+		resp, closeConn := s.exec(cmd, payload, worker, pending)
 		if closeConn {
 			return
 		}
@@ -333,7 +401,7 @@ func (s *Sim) handleAdmin(c net.Conn) {
 
 // exec applies one runtime command; returns the response text (without the
 // trailing empty line) and whether the connection must be dropped instead.
-func (s *Sim) exec(cmd, payload string) (string, bool) {
+func (s *Sim) exec(cmd, payload string, worker *State, pending map[string]string) (string, bool) {
 	s.mu.Lock()
 	defer s.mu.Unlock()
 	f := strings.Fields(cmd)
@@ -361,21 +429,21 @@ func (s *Sim) exec(cmd, payload string) (string, bool) {
 	case FaultNotOK:
 		return "Simulated failure.\n", false
 	}
-	resp := s.apply(f, payload)
+	resp := apply(worker, pending, f, payload)
 	if fault == FaultDropApp {
 		return "", true
 	}
 	return resp, false
 }
 
-func (s *Sim) apply(f []string, payload string) string {
+func apply(state *State, pendingCert map[string]string, f []string, payload string) string {
 	switch {
 	case len(f) >= 3 && f[0] == "set" && f[1] == "server":
 		bs := strings.SplitN(f[2], "/", 2)
 		if len(bs) != 2 {
 			return "Require 'backend/server'.\n"
 		}
-		back, ok := s.state.Backends[bs[0]]
+		back, ok := state.Backends[bs[0]]
 		if !ok {
 			return "No such backend.\n"
 		}
@@ -421,25 +489,25 @@ func (s *Sim) apply(f []string, payload string) string {
 		}
 		return "usage: set server <backend>/<server> ...\n"
 	case len(f) == 4 && f[0] == "set" && f[1] == "ssl" && f[2] == "cert":
-		if _, ok := s.state.Certs[f[3]]; !ok {
+		if _, ok := state.Certs[f[3]]; !ok {
 			return "Can't replace a certificate which is not referenced by the configuration!\n"
 		}
 		if !strings.Contains(payload, "BEGIN CERTIFICATE") {
 			return "unable to load certificate\n"
 		}
-		s.pendingCert[f[3]] = normPEM(payload)
+		pendingCert[f[3]] = normPEM(payload)
 		return "Transaction created for certificate " + f[3] + "!\n"
 	case len(f) == 4 && f[0] == "commit" && f[1] == "ssl" && f[2] == "cert":
-		p, ok := s.pendingCert[f[3]]
+		p, ok := pendingCert[f[3]]
 		if !ok {
 			return "No ongoing transaction! !\n"
 		}
-		delete(s.pendingCert, f[3])
-		s.state.Certs[f[3]] = p
+		delete(pendingCert, f[3])
+		state.Certs[f[3]] = p
 		return "Committing " + f[3] + ".\nSuccess!\n"
 	case f[0] == "show" && len(f) >= 2 && f[1] == "servers":
 		var names []string
-		for b := range s.state.Backends {
+		for b := range state.Backends {
 			names = append(names, b)
 		}
 		sort.Strings(names)
